@@ -1,5 +1,5 @@
-# U-iter: the fixed-primed-variable step of the enumeration (C11: "a mask restricts the enumeration to the matching assignments and nothing else"; expansion of
-# skipped primed levels by the reduction rule): iterator_templ<EdgeOp_none>::first_pri (src/dd_edge.cc) on a primed variable that the mask fixes (U_to(k) == 0).
+# U-iter: the fixed-variable steps of the enumeration (C11: "a mask restricts the enumeration to the matching assignments and nothing else"; expansion of
+# skipped primed levels by the reduction rule): iterator_templ<EdgeOp_none>::first_pri (src/dd_edge.cc) on a primed variable that the mask fixes (U_to(k) == 0), and iterator_templ<EdgeOp_none>::first_unpr on an unprimed variable that the mask fixes (U_from(k) == 0).
 M = 'src/dd_edge.cc'
 def job(name, enforce, replace=(), props=('C11',), **kw):
     d = dict(name=name, entry='h_' + name, enforce=enforce, replace=list(replace), props=list(props))
@@ -9,7 +9,7 @@ def im(name, argc, **kw):
     d = dict(cls='iterator_templ', name=name, argc=argc, cname='iterator_templ__' + name); d.update(kw); return d
 def um(name, argc, **kw):
     d = dict(cls='unpacked_node', name=name, argc=argc, cname='unpacked_node__' + name); d.update(kw); return d
-STUBS = ['iterator_templ__Z_to', 'iterator_templ__ev_from', 'iterator_templ__ev_to', 'iterator_templ__M_from', 'iterator_templ__M_to',
+STUBS = ['verif_first_unpr_below', 'iterator_templ__Z_to', 'iterator_templ__ev_from', 'iterator_templ__ev_to', 'iterator_templ__M_from', 'iterator_templ__M_to',
          'iterator_templ__mask_from', 'iterator_templ__mask_to', 'iterator_templ__getNodeLevel', 'iterator_templ__F', 'iterator_templ__first_unpr', 'iterator_templ__isForSets',
          'forest__isFullyReduced', 'forest__getDownPtr', 'forest__getDownPtr_ev', 'EdgeOp_none__accumulateOp', 'EdgeOp_none__clear', 'EdgeOp_none__applyOp',
          'unpacked_node__initRedundant', 'unpacked_node__initRedundant_ev', 'unpacked_node__initIdentity', 'unpacked_node__initIdentity_ev', 'unpacked_node__initFromNode',
@@ -28,30 +28,35 @@ UNIT = {
         'initFromNode': {'*': 'unpacked_node'}, 'getSize': {'*': 'unpacked_node'}, 'index': {'*': 'unpacked_node'}, 'down': {'*': 'unpacked_node'}, 'edgeval': {'*': 'unpacked_node'},
     },
     'text_subst': [
+        # the step below a FIXED variable (three sites, all in fixed-variable branches): a recording ghost call instead of the recursion
+        (r'return first_unpr\(k-1, pdn\);', 'return verif_first_unpr_below(this, k-1, pdn);', M),
+        (r'const edge_value& up = isForSets\(\) \? ev_from\(k\+1\) : ev_to\(k\+1\);', 'const edge_value& up = ev_from(k+1);', M),
         (r'edge_value zero;', 'struct edge_value *verif_zero = verif_zero_ev();', M),
         (r'EOP::clear\(zero\);', 'EOP::clear(*verif_zero);', M),
         (r', zero, p\);', ', *verif_zero, p);', M),
     ],
-    'extra_free': {'verif_zero_ev': 'verif_zero_ev'},
+    'extra_free': {'verif_zero_ev': 'verif_zero_ev', 'verif_first_unpr_below': 'verif_first_unpr_below'},
     'extra_methods': [
         im('U_to', 1), im('Z_to', 1), im('ev_from', 1), im('ev_to', 1), im('M_from', 1), im('M_to', 1), im('mask_from', 1), im('mask_to', 1), im('getNodeLevel', 1), im('F', 0),
-        im('first_unpr', 2), im('isForSets', 0),
+        im('isForSets', 0), im('U_from', 1), im('Z_from', 1), im('isMultiTerminal', 0), im('M_setTerm', 1), im('M_setTerm', 2, cname='iterator_templ__M_setTerm_ev'),
         dict(cls='forest', name='isFullyReduced', argc=0, cname='forest__isFullyReduced'),
         dict(cls='forest', name='getDownPtr', argc=2, cname='forest__getDownPtr'), dict(cls='forest', name='getDownPtr', argc=4, cname='forest__getDownPtr_ev'),
         um('initRedundant', 2), um('initRedundant', 3, cname='unpacked_node__initRedundant_ev'), um('initIdentity', 3), um('initIdentity', 4, cname='unpacked_node__initIdentity_ev'),
         um('initFromNode', 1), um('getSize', 0), um('index', 1), um('down', 1), um('edgeval', 1),
     ] + [dict(cls='EdgeOp_none', name=n, argc=a, cname='EdgeOp_none__' + n, static=True) for (n, a) in (('hasEdgeValues', 0), ('accumulateOp', 2), ('clear', 1), ('applyOp', 2))],
-    'ref_returning': ['iterator_templ__Z_to', 'iterator_templ__ev_from', 'iterator_templ__ev_to', 'iterator_templ__M_from', 'iterator_templ__M_to', 'unpacked_node__edgeval'],
-    'ref_params': {'forest__getDownPtr_ev': [3, 4], 'EdgeOp_none__accumulateOp': [0, 1], 'EdgeOp_none__clear': [0], 'EdgeOp_none__applyOp': [0, 1],
+    'ref_returning': ['iterator_templ__Z_from', 'iterator_templ__Z_to', 'iterator_templ__ev_from', 'iterator_templ__ev_to', 'iterator_templ__M_from', 'iterator_templ__M_to', 'unpacked_node__edgeval'],
+    'ref_params': {'iterator_templ__M_setTerm_ev': [1], 'forest__getDownPtr_ev': [3, 4], 'EdgeOp_none__accumulateOp': [0, 1], 'EdgeOp_none__clear': [0], 'EdgeOp_none__applyOp': [0, 1],
                    'unpacked_node__initRedundant_ev': [2], 'unpacked_node__initIdentity_ev': [3]},
     'functions': [
         dict(cls='iterator_templ', name='first_pri', file=M, where='out', loops=1),
+        dict(cls='iterator_templ', name='first_unpr', file=M, where='out', loops=2),
     ],
-    'stubs': ['the iterator cursor accessors (M_from / M_to / mask_to / U_to ...) return ghost cells; first_unpr (the step below) records its arguments and returns an arbitrary answer; '
+    'stubs': ['text_subst (each must match the source): the three calls `return first_unpr(k-1, pdn);` below a FIXED variable become a recording ghost call (so the recursion of first_unpr into itself is an assumed step, not an induction); in first_unpr the reference `isForSets() ? ev_from(k+1) : ev_to(k+1)` (a conditional lvalue, not C) is extracted as `ev_from(k+1)` - it sits in the edge-valued branch, which is dead for EdgeOp_none', 'the iterator cursor accessors (M_from / M_to / mask_to / U_to ...) return ghost cells; first_unpr (the step below) records its arguments and returns an arbitrary answer; '
               'forest getters, getDownPtr and the unpacked-node calls are ghost values'],
     'assumptions': ['EdgeOp_none::hasEdgeValues() is an executable stub returning false (as in src/forest_edgerules.h), U_to(k) an executable stub returning the ghost cursor', 'EdgeOp_none instance (no edge values); only the fixed-variable branch (U_to(k) == 0) is entered: the scan over a free primed variable is not under this contract'],
-    'unverified_surroundings': {'C11': ['iterator_templ::next, first_unpr, the free-variable scans of first_pri, random_*; edge-valued instances of the iterator']},
+    'unverified_surroundings': {'C11': ['iterator_templ::next, the free-variable scans of first_unpr / first_pri (which value is tried next, in which order), random_*; edge-valued instances of the iterator; that the steps add up to the enumeration of the function (induction over the diagram)']},
     'jobs': [
         job('first_pri_fixed', 'iterator_templ__first_pri', STUBS, loops=1, object_bits=11),
+        job('first_unpr_fixed', 'iterator_templ__first_unpr', [x for x in STUBS if x != 'iterator_templ__first_unpr'] + ['iterator_templ__first_pri', 'iterator_templ__Z_from', 'iterator_templ__isMultiTerminal', 'iterator_templ__M_setTerm', 'iterator_templ__M_setTerm_ev'], loops=2, object_bits=11, defines=['JOB_UNPR'], recursive=True),
     ],
 }
